@@ -114,6 +114,56 @@ def to_dtype(x, dt):
     return F(float(NP[dt](float(x)))) if dt == "f32" else F(float(x))
 
 
+def dtype_arg(case):
+    """The `dtype` constructor argument in the documented form the case asks for (`forms.dtype`): one dtype, a dict,
+    or a dict whose solution dtype differs (no index / threshold computation depends on the solution dtype)."""
+    dt = NP[case["dtype"]]
+    form = case.get("forms", {}).get("dtype", "one")
+    if form == "dict":
+        return {"solution": dt, "objective": dt, "measures": dt}
+    if form == "dictsol":
+        return {"solution": np.float32 if dt == np.float64 else np.float64, "objective": dt, "measures": dt}
+    return dt
+
+
+def gen_forms(rng):
+    return {"dtype": rng.choice(["one", "one", "dict", "dictsol"]),
+            "ranges": rng.choice(["tuples", "tuples", "nd", "lists"]),
+            "args": rng.choice(["nd", "nd", "list", "kw", "native", "strided"])}
+
+
+def submit(archive, case, single, sol, obj, meas, extras):
+    """archive.add / add_single with the arguments in the documented form the case asks for (`forms.args`): ndarrays
+    (float64 values, cast on entry), nested lists / Python floats, keyword arguments, arrays already in the archive
+    dtype, non-contiguous views.  `obj` may be None (diversity optimisation)."""
+    form = case.get("forms", {}).get("args", "nd")
+    npdt = NP[case["dtype"]]
+    n = len(sol)
+    if form == "native":
+        obj, meas = (None if obj is None else obj.astype(npdt)), meas.astype(npdt)
+    elif form == "strided" and n:
+        big = np.zeros((2 * n, 2 * meas.shape[1]))
+        big[::2, ::2] = meas
+        meas = big[::2, ::2]
+        if obj is not None:
+            bo = np.zeros(2 * n)
+            bo[::2] = obj
+            obj = bo[::2]
+    if single:
+        s1, o1, m1 = sol[0], (None if obj is None else obj[0]), meas[0]
+        e1 = {k: v[0] for k, v in extras.items()}
+        if form == "list":
+            s1, o1, m1 = s1.tolist(), (None if o1 is None else float(o1)), m1.tolist()
+        if form == "kw":
+            return archive.add_single(solution=s1, objective=o1, measures=m1, **e1)
+        return archive.add_single(s1, o1, m1, **e1)
+    if form == "list" and n:        # (an empty nested list carries no inner dimension)
+        sol, obj, meas = sol.tolist(), (None if obj is None else obj.tolist()), meas.tolist()
+    if form == "kw":
+        return archive.add(solution=sol, objective=obj, measures=meas, **extras)
+    return archive.add(sol, obj, meas, **extras)
+
+
 def make_archive(case, seed=0):
     from ribs.archives import CVTArchive, GridArchive, SlidingBoundariesArchive
     dt = NP[case["dtype"]]
@@ -123,8 +173,14 @@ def make_archive(case, seed=0):
     if case.get("tmin") is not None:
         kw["threshold_min"] = float(fr(case["tmin"]))
     ranges = [(float(fr(a)), float(fr(b))) for a, b in zip(case["lo"], case["hi"])]
+    # documented alternative forms of the same configuration (`forms`): dtype as a dict, ranges as ndarray / lists
+    forms = case.get("forms", {})
+    if forms.get("ranges") == "nd":
+        ranges = np.array(ranges, dtype=np.float64)
+    elif forms.get("ranges") == "lists":
+        ranges = [list(r) for r in ranges]
     common = dict(solution_dim=case.get("sol_dim", 2), qd_score_offset=float(fr(case.get("off", "0"))), seed=seed,
-                  dtype=dt, extra_fields=extra_fields(case.get("layout", "")))
+                  dtype=dtype_arg(case), extra_fields=extra_fields(case.get("layout", "")))
     if case["kind"] == "grid":
         return GridArchive(dims=case["dims"], ranges=ranges, **kw, **common)
     if case["kind"] == "cvt":
@@ -318,10 +374,9 @@ class Run:
         meas = np.array([[float(fr(m)) for m in r[2]] for r in rows], dtype=np.float64).reshape(
             len(rows), len(self.case["lo"]))
         extras = batch_kwargs(layout, toks)
+        info = submit(archive, self.case, single, sol, obj, meas, extras)
         if single:
-            info = archive.add_single(sol[0], obj[0], meas[0], **{k: v[0] for k, v in extras.items()})
             return [int(info["status"])], [F(float(info["value"]))]
-        info = archive.add(sol, obj, meas, **extras)
         if len(rows) == 0 and "status" not in info:
             return [], []
         return [int(s) for s in info["status"]], [F(float(v)) for v in info["value"]]
@@ -903,6 +958,7 @@ def gen_case(rng, profile="mixed", kinds=("grid", "cvt", "sb"), cma=False, dtype
     if profile == "collide":
         case["dtype"] = "f32"
     case["layout"] = rng.choice(["", "s", "v", "o", "sv", "svo", "m", "om", "b", "sb"])
+    case["forms"] = gen_forms(rng)
     case["sol_dim"] = rng.choice([1, 2, 3])
     case["off"] = q(rng.choice([F(0), F(-8), F(3, 2), F(-100)]))
     if cma and case["kind"] != "sb":
